@@ -289,6 +289,12 @@ func TestCheck(t *testing.T) {
 		key := fmt.Sprintf("%s-%d", base, to)
 		f := strings.Split(base, "|")[0]
 		fam(f).Deaths++
+		twin := ""
+		if strings.HasSuffix(progress, "+crc") {
+			// the process died while decoding the valid-checksum twin of the case (same corruption, checksum recomputed)
+			progress = strings.TrimSuffix(progress, "+crc")
+			twin = " valid-crc"
+		}
 		if !strings.HasPrefix(progress, base+"#") {
 			c.EngineError("worker died in unit " + unit + " (" + why + ") and the progress file does not name a case of it: " + progress)
 			return ""
@@ -317,8 +323,8 @@ func TestCheck(t *testing.T) {
 				}
 			}
 		}
-		report(fmt.Sprintf("%s type=%s%s kind=%s", failure, f, codec, kind),
-			fmt.Sprintf("the worker process (heap room capped at %d MiB) died while decoding case %s: %s", heapRoomMB, progress, why), unit, progress)
+		report(fmt.Sprintf("%s type=%s%s kind=%s%s", failure, f, codec, kind, twin),
+			fmt.Sprintf("the worker process (heap room capped at %d MiB) died while decoding case %s%s: %s", heapRoomMB, progress, map[bool]string{true: " (its twin with the checksum recomputed)", false: ""}[twin != ""], why), unit, progress)
 		idx, _ := strconv.Atoi(progress[strings.LastIndex(progress, "#")+1:])
 		if fatal[base] == nil {
 			fatal[base] = map[int]bool{}
